@@ -179,6 +179,66 @@ fn main() {
                     hex(p.server_time.as_slice())
                 )
             }
+            // wsig <mode> <alg> <key> <pmac> <id> <qr> <qname> <qtype> <rrs> <keyname> <ts> <fudge> <oid> <err> <st> [pre=..]
+            // a message built with the real Writer (compression on), TSIG added by set_tsig + finish_with_mac,
+            // then read back with the Reader: prefix before the TSIG RR, its owner, RDATA and the returned MAC
+            "wsig" => {
+                let a = alg(f[2]);
+                let key = unhex(f[3]);
+                let pmac = unhex(f[4]);
+                let mut buf = vec![0u8; 4096];
+                let mut w = Writer::try_from(buf.as_mut_slice()).unwrap();
+                w.set_id(f[5].parse().unwrap());
+                if f[6] == "1" {
+                    w.set_qr(true);
+                    w.set_aa(true);
+                }
+                let qname = name(f[7]);
+                let q = Question { qname: qname.clone(), qtype: Qtype::from(f[8].parse::<u16>().unwrap()), qclass: Class::IN.into() };
+                w.add_question(&q).unwrap();
+                if f[9] != "-" {
+                    for rr in f[9].split(',') {
+                        let p: Vec<&str> = rr.split(':').collect();
+                        let rd = unhex(p[1]);
+                        let rdata: &Rdata = rd.as_slice().try_into().unwrap();
+                        w.add_answer_rr(HintedName::new(Hint::Qname, &qname), Type::from(p[0].parse::<u16>().unwrap()),
+                                        Class::IN, Ttl::from(300), rdata, None).unwrap();
+                    }
+                }
+                let p = prepared(&f[10..16]);
+                let mode = match f[1] {
+                    "rq" => TsigMode::Request { algorithm: a, key: key.into() },
+                    "rs" => TsigMode::Response { algorithm: a, request_mac: pmac.into(), key: key.into() },
+                    "sb" => TsigMode::Subsequent { algorithm: a, prior_mac: pmac.into(), key: key.into() },
+                    "un" => TsigMode::Unsigned { algorithm: a.name().to_owned() },
+                    _ => panic!("bad mode"),
+                };
+                w.set_tsig(mode, p).unwrap();
+                let (len, mac) = w.finish_with_mac();
+                let msg = &buf[..len];
+                let mut r = Reader::try_from(msg).unwrap();
+                for _ in 0..r.qdcount() {
+                    r.skip_question().unwrap();
+                }
+                let n = r.ancount() as usize + r.nscount() as usize + r.arcount() as usize;
+                for _ in 0..n - 1 {
+                    r.skip_rr().unwrap();
+                }
+                let pre = r.message_to_cursor();
+                let rr = r.read_rr().unwrap();
+                assert!(r.at_eom());
+                format!(
+                    "ok pre={} owner={} type={} class={} ttl={} rdata={} mac={}",
+                    hex(pre),
+                    // compression may point into the QNAME, whose letter case then shows up in the owner
+                    hex(&rr.owner.wire_repr().to_ascii_lowercase()),
+                    u16::from(rr.rr_type),
+                    u16::from(rr.class),
+                    u32::from(rr.ttl),
+                    hex(rr.rdata.octets()),
+                    mac.map(|m| hex(&m)).unwrap_or_else(|| "none".to_string())
+                )
+            }
             _ => panic!("unknown op"),
         }
     });
